@@ -19,6 +19,14 @@ def quiet(f, *a, **k):
         warnings.simplefilter('ignore')
         return f(*a, **k)
 
+def strict_env(f, *a, **k):
+    """the call inside a process-wide STRICT floating-point error state (np.seterr(all='raise'), as a caller hunting NaNs would set): the library
+    shields its own 0/0 and x/0 ratios, so the outcome must not depend on the caller's error state"""
+    with warnings.catch_warnings():
+        warnings.simplefilter('ignore')
+        with np.errstate(all='raise'):
+            return f(*a, **k)
+
 def fe_kwargs(fk, boundary=None, pad=None):
     d = {}
     if fk is not None:
@@ -121,26 +129,45 @@ def object_route(sig, fs, f_range, center, method, bk, th, fek, return_samples=T
     import copy as _copy
     from bycycle import Bycycle
     sig = np.asarray(sig)
-    th0 = None
+    th0 = None; edit_min_n = False
     if th is not None:
         th0 = {((k[:-len('_threshold')] if shorthand and k.endswith('_threshold') else k)): v for k, v in th.items()}
-        if 'min_n_cycles' in th0: th0['min_n_cycles'] = th0['min_n_cycles'] + 5
+        # half of the histories start from a LARGER min_n_cycles that is edited in place before the second fit; the other half hold the
+        # requested value from the start and never touch it again (so that nothing else may)
+        import zlib as _zlib
+        edit_min_n = _zlib.crc32(np.ascontiguousarray(sig[:16]).tobytes()) % 2 == 0
+        if 'min_n_cycles' in th0 and edit_min_n: th0['min_n_cycles'] = th0['min_n_cycles'] + 5
     # half of the histories hand the requested find_extrema_kwargs to the CONSTRUCTOR (and keep them), the other half start from other
     # ones and rebind the attribute before the second fit
-    ctor_fek = fek if (len(sig) % 2 == 0) else {'filter_kwargs': {'n_cycles': 3}, 'boundary': 0}
+    import zlib as _zlib
+    ctor = _zlib.crc32(np.ascontiguousarray(sig[-16:]).tobytes()) % 2 == 0
+    ctor_fek = fek if ctor else {'filter_kwargs': {'n_cycles': 3}, 'boundary': 0}
     bm = quiet(Bycycle, center_extrema=('trough' if center == 'peak' else 'peak'), burst_method=method,
                burst_kwargs=(None if bk is None else _copy.deepcopy(bk)), thresholds=th0,
-               find_extrema_kwargs=ctor_fek, return_samples=not return_samples)
+               find_extrema_kwargs=ctor_fek, return_samples=True)          # (the plot below needs the sample columns)
     try:
         quiet(bm.fit, sig, fs, f_range)
+        # ... the user looks at the result and tries an edge recomputation that is rejected (reduction far too large): neither may leave a trace
+    except Exception:
+        pass
+    if _zlib.crc32(np.ascontiguousarray(sig[8:24]).tobytes()) % 4 == 0:       # (one history in four: drawing is slow)
+        import matplotlib.pyplot as _plt
+        try:
+            quiet(bm.plot, xlim=(0.0, min(2.0, (len(sig) - 1) / fs)))
+        except Exception:
+            pass
+        finally:
+            _plt.close('all')
+    try:
+        quiet(bm.recompute_edges, 10.0)
     except Exception:
         pass
     bm.center_extrema = center
     bm.return_samples = return_samples
-    if len(sig) % 2 != 0:
+    if not ctor:
         if fek is not None: bm.find_extrema_kwargs = fek
         else: bm.find_extrema_kwargs = {'filter_kwargs': {'n_cycles': 3}}
-    if th is not None and 'min_n_cycles' in th: bm.thresholds['min_n_cycles'] = th['min_n_cycles']       # in-place edit
+    if th is not None and 'min_n_cycles' in th and edit_min_n: bm.thresholds['min_n_cycles'] = th['min_n_cycles']       # in-place edit
     quiet(bm.fit, sig, fs, f_range)
     return bm.df_features
 
@@ -151,7 +178,7 @@ def raised_in_kernel(e):
     while tb is not None:
         files.append(tb.tb_frame.f_code.co_filename); tb = tb.tb_next
     last_own = max([i for i, f in enumerate(files) if '/bycycle/' in f] or [-1])
-    return any('/neurodsp/' in f for f in files[last_own + 1:])
+    return any(('/neurodsp/' in f and '/neurodsp/utils/checks' not in f) for f in files[last_own + 1:])
 
 
 def layout_nd(a, k):
